@@ -142,7 +142,13 @@ pub enum Scen {
     PollSetAsync,
     /// async-lock flavour: poll || drop of the last owner
     PollCloseAsync,
+    /// a read guard held across a pause point || set
+    ReadGuardVsSet,
+    /// a write guard held across pause points (with a set through it) || get || subscriber poll
+    WriteGuardVsGetAndPoll,
 }
+
+pub const C04_GUARD_SCENS: &[Scen] = &[Scen::ReadGuardVsSet, Scen::WriteGuardVsGetAndPoll];
 
 pub const C02_SCENS: &[Scen] = &[
     Scen::PollSetShared,
@@ -292,6 +298,99 @@ fn run_scen(sc: Scen, prefix: &[usize]) -> (SchedRun, V) {
             let run = run_schedule(vec![poll_role(sub.clone(), res.clone()), Box::new(move || drop(ob))], prefix, t_block());
             let v = settle(&sub, &res, true, false, None, "async-lock: poll || drop of the last owner");
             (run, v)
+        }
+        Scen::ReadGuardVsSet => {
+            let ob = SharedObservable::new(0u64);
+            let clock = Arc::new(Clock(AtomicU64::new(0)));
+            let hold: Slot<(u64, u64, u64, u64)> = slot();
+            let wr: Slot<(u64, u64, u64)> = slot();
+            let (c1, c2) = (ob.clone(), ob.clone());
+            let (k1, k2) = (clock.clone(), clock.clone());
+            let (h2, w2) = (hold.clone(), wr.clone());
+            let run = run_schedule(
+                vec![
+                    Box::new(move || {
+                        let g = c1.read();
+                        let t1 = k1.tick();
+                        let v1 = *g;
+                        pause("guard:held");
+                        let v2 = *g;
+                        let t2 = k1.tick();
+                        drop(g);
+                        *h2.lock().unwrap() = Some((t1, t2, v1, v2));
+                    }),
+                    Box::new(move || {
+                        let inv = k2.tick();
+                        let prev = c2.set(1);
+                        let res = k2.tick();
+                        *w2.lock().unwrap() = Some((inv, res, prev));
+                    }),
+                ],
+                prefix,
+                t_block(),
+            );
+            let (t1, t2, v1, v2) = hold.lock().unwrap().take().unwrap();
+            let (inv, res, prev) = wr.lock().unwrap().take().unwrap();
+            let v = if v1 != v2 {
+                bad("C04", format!("the value changed while a read guard was alive: {v1} -> {v2}"))
+            } else if inv > t1 && res < t2 {
+                bad("C04", format!("a set was invoked and completed (clock {inv}..{res}) entirely while a read guard was alive (clock {t1}..{t2})"))
+            } else if prev != 0 || ob.get() != 1 {
+                bad("C04", format!("set returned {prev} (expected 0) / final value {}", ob.get()))
+            } else {
+                Ok(())
+            };
+            (run, v)
+        }
+        Scen::WriteGuardVsGetAndPoll => {
+            let ob = SharedObservable::new(0u64);
+            let clock = Arc::new(Clock(AtomicU64::new(0)));
+            let hold: Slot<(u64, u64)> = slot();
+            let rd: Slot<(u64, u64, u64)> = slot();
+            let sub = slot_with(ob.subscribe());
+            let res = slot();
+            let (c1, c2) = (ob.clone(), ob.clone());
+            let (k1, k2) = (clock.clone(), clock.clone());
+            let (h2, r2) = (hold.clone(), rd.clone());
+            let run = run_schedule(
+                vec![
+                    Box::new(move || {
+                        let mut g = c1.write();
+                        let t1 = k1.tick();
+                        pause("wguard:held");
+                        ObservableWriteGuard::set(&mut g, 5);
+                        pause("wguard:after-set");
+                        let t2 = k1.tick();
+                        drop(g);
+                        *h2.lock().unwrap() = Some((t1, t2));
+                    }),
+                    Box::new(move || {
+                        let inv = k2.tick();
+                        let v = c2.get();
+                        let res = k2.tick();
+                        *r2.lock().unwrap() = Some((inv, res, v));
+                    }),
+                    poll_role(sub.clone(), res.clone()),
+                ],
+                prefix,
+                t_block(),
+            );
+            let (t1, t2) = hold.lock().unwrap().take().unwrap();
+            let (inv, rres, v) = rd.lock().unwrap().take().unwrap();
+            let mut verdict = if inv > t1 && rres < t2 {
+                bad("C04", format!("a get was invoked and completed (clock {inv}..{rres}) entirely while a write guard was alive (clock {t1}..{t2})"))
+            } else if inv > t1 && v != 5 {
+                bad("C04", format!("a get invoked after the write guard was taken returned {v}, the guard stored 5"))
+            } else if v != 0 && v != 5 {
+                bad("C04", format!("get returned {v}, which was never the value"))
+            } else {
+                Ok(())
+            };
+            if verdict.is_ok() {
+                verdict = settle(&sub, &res, false, true, Some(5), "write guard || get || poll");
+            }
+            drop(ob);
+            (run, verdict)
         }
         Scen::PollVsSubscriberDropThenSet => {
             let ob = SharedObservable::new(0u64);
@@ -1550,7 +1649,7 @@ pub fn run_c03(p: &Params) -> Outcome {
 pub fn run_c04(p: &Params) -> Outcome {
     let mut out = Outcome::default();
     // the lock-exclusion invariant is evaluated by the director in every scenario
-    let all: Vec<Scen> = C02_SCENS.iter().chain(C03_SCENS.iter()).copied().collect();
+    let all: Vec<Scen> = C04_GUARD_SCENS.iter().chain(C02_SCENS.iter()).chain(C03_SCENS.iter()).copied().collect();
     out.merge(run_directed("C04", &all, p, sched_budget(p, 200, 1500)));
     out.merge(run_rounds("C04", p, "w1-register", p.n(1_500, 60_000), round_w1));
     out.merge(run_rounds("C04", p, "w2-append-list", p.n(800, 30_000), round_w2));
